@@ -15,6 +15,9 @@ Record rinfo := mkRI {
   ri_isupper : bool; ri_isletter : bool; ri_isdigit : bool; ri_isspace : bool }.
 
 Record case := mkcase {
+  c_env : nat;                     (* 0: clean environment; n: the driver process was started with adversarial
+                                      environment profile n (variables, locale, working directory) of props/c20.py.
+                                      NOT an argument of the model or of the Spec: results must not depend on it *)
   c_tmpl : str;
   c_content : str;
   c_runes : list (N * rinfo);      (* Go's unicode.* for the non-ASCII runes in play *)
